@@ -197,6 +197,8 @@ def run(ctx) -> None:
                       f"`{unparse(cmd)}` does not derive from a tokenised template", loc=fn.loc(call))
     # how a token's placeholders are filled: one simultaneous pass over the template token (str.format) - a substituted
     # value is never scanned again for placeholders
+    from checks.c10 import command_placeholders_rule
+    command_placeholders_rule(ctx, "R2")
     mech = _substitution_mechanism(ctx, callfn)
     if mech[0] == "format":
         ctx.ok("R1", f"VCSAPI.__call__: each token is filled in one pass by `{mech[1]}`")
